@@ -311,6 +311,15 @@ where
         // note that the coefficients of the remainder polynomial are sent in reverse order and
         // this simplifies evaluation using Horner's method.
         let remainder_poly = channel.read_remainder()?;
+
+        // the last commitment sent by the prover (before the query positions were drawn) is a
+        // commitment to the remainder polynomial; make sure the revealed remainder matches it
+        match self.layer_commitments.last() {
+            Some(commitment)
+                if *commitment == <H as ElementHasher>::hash_elements(&remainder_poly) => {},
+            _ => return Err(VerifierError::RemainderCommitmentMismatch),
+        }
+
         if remainder_poly.len() > max_degree_plus_1 {
             return Err(VerifierError::RemainderDegreeMismatch(max_degree_plus_1 - 1));
         }
